@@ -620,7 +620,7 @@ func probesSaneList(l []string) bool {
 
 // Run is the check.
 func Run(c *core.Ctx) {
-	c.Note("rule", "scenario = seeded set of 4..14 generated program texts (assignments, expressions, list/map literals incl. nested and empty ones, func/sink/try/mutex blocks, imports from a memory locator, comments, interpolated strings; mixed stream additionally if/elif/else and for with nested guards; 1 in 4 texts carries an injected syntax error: dropped closing brace, stray token, unclosed string, unfinished map, error in the middle; every other scenario adds three texts whose very first token cannot be read) plus 3 importable files; sequential results first (in the first scenario of each process and in every eighth scenario: afterwards, so that lazily initialised state is first touched concurrently), then 2..16 goroutines: parsing goroutines (Parse / ParseWithRuntime on one shared provider / +Validate, N parses each over the texts) next to evaluation goroutines (interpolating strings, importing files, sinks on pool workers fed with 8..24 events, debugger breakpoint + inject loop). canary stream = 4 fixed texts (if, for, map literals), 2..4 parsing goroutines. noif stream: no if/for anywhere. non-trivial/distinct = distinct (text, parse mode) pairs and distinct evaluation jobs of scenarios in which at least two parses were observed in flight simultaneously")
+	c.Note("rule", "scenario = seeded set of 4..14 generated program texts (assignments, expressions, list/map literals incl. nested and empty ones, func/sink/try/mutex blocks, imports from a memory locator, comments, interpolated strings; mixed stream additionally if/elif/else and for with nested guards; 1 in 4 texts carries an injected syntax error: dropped closing brace, stray token, unclosed string, unfinished map, error in the middle; every other scenario adds three texts whose very first token cannot be read) plus 3 importable files; sequential results first (in the first scenario of each process and in every eighth scenario: afterwards, so that lazily initialised state is first touched concurrently), then 2..16 goroutines: parsing goroutines (Parse / ParseWithRuntime on one shared provider / +Validate, N parses each over the texts) next to evaluation goroutines (interpolating strings, importing files, sinks on pool workers fed with 8..24 events, debugger breakpoint + inject loop). fresh stream = 2..8 goroutines parse+validate, with one shared provider, 40..120 texts each that nobody parsed before (every text brings its own mutex, function, sink and import names), compared with parsing each text alone with another provider. canary stream = 4 fixed texts (if, for, map literals), 2..4 parsing goroutines. noif stream: no if/for anywhere. non-trivial/distinct = distinct (text, parse mode) pairs and distinct evaluation jobs of scenarios in which at least two parses were observed in flight simultaneously")
 	var probeWant []string // taken after the first (cold) scenario of the process
 	first := true
 
@@ -644,6 +644,11 @@ func Run(c *core.Ctx) {
 					deaths++
 				}
 			}
+		}
+	}
+	for idx := 0; idx < c.Pick(160, 6000); idx++ {
+		if c.Take("fresh", idx) {
+			freshScenario(c, "fresh", idx)
 		}
 	}
 	poisoned := false
